@@ -116,7 +116,8 @@ chk("C16", "model_checking",
     "option from the class alphabet of its type (out of range both sides, overflowing, wrong type, dangling / wrongly typed reference, "
     "misspelt name, name only, empty and empty-quoted value, unterminated quote, 10 000-character value, non-ASCII, NUL), compared with "
     "the configuration without the bad line (--update-config dump and formatted bytes); directive lines with missing/unknown arguments, "
-    "'using' and 'include' edge cases incl. include cycles; all byte strings <= 2 and all word sequences <= 3 over a 17-word alphabet as "
+    "'using' and 'include' edge cases incl. include cycles, 'using' components at number classes around 3 digits / int / unsigned / 64 bit, "
+    "--set / --tracking arguments of every length around the 256-byte buffer; all byte strings <= 2 and all word sequences <= 3 over a 17-word alphabet as "
     "configuration files; the nl_max rule for every blank-line count option x nl_max 1..3 x {equal, one more} x {file, reversed, --set}.",
     "aliases accepted by the reader (e.g. 'true' for an iarf option, 0/1/2) are valid values, not bad lines; blank-line count options are recognised by their documentation text",
     "exhaustive option x bad-line-class enumeration with differential (line absent) oracle under sanitizers", "3/C16")
@@ -147,7 +148,8 @@ chk("C08", "model_checking",
     "Stateless exhaustive exploration on the real binary: 12 small programs (multi-line block comment, backslash-continued macro, '//' and "
     "string continuations, raw string with a line break, *INDENT-OFF* and #pragma asm regions, blank-line runs, last line without "
     "terminator, #if) x ALL 3^L assignments of {LF, CRLF, CR} to their L <= 7 line breaks x profiles, and the language skeletons x uniform / "
-    "every 1-deviation (thorough: 2-deviation) assignment; each variant is formatted under newlines = lf, crlf, cr and auto. Oracle: only the "
+    "every 1-deviation (thorough: 2-deviation) assignment; each variant is formatted under newlines = lf, crlf, cr and auto; plus every single "
+    "deviation (lexer-altering options included) over the options a program's run reads, on its CRLF (thorough: + CR, + alternating) spelling. Oracle: only the "
     "configured terminator occurs outside literals; output equals the output for the LF-canonical form of the same bytes; the crlf/cr output "
     "is the lf output with terminators replaced; auto uses a most frequent terminator counted outside disabled regions.",
     "raw strings masked as the only literals with line breaks; marker lines of a region may count either way; four individually listed known findings (CR-only and census details)",
@@ -170,13 +172,14 @@ chk("C17", "model_checking",
     "several indentation widths) x the full product of the tab family indent_with_tabs {0,1,2} x indent_columns {1,2,3,4,8} x output_tab_size "
     "{1,2,3,4,8} x align_with_tabs x align_keep_tabs x pp_indent_with_tabs {-1,0,1,2} x indent_cmt_with_tabs (2400 configurations; quick: a "
     "216-configuration sub-product) with alignment on; the end-of-file family nl_end_of_file x nl_end_of_file_min {0..3} (x nl_max) x nine input "
-    "endings; every single deviation over the indent_/align_/pp_/cmt_/nl_ options read, on three tab bases. Oracle: comments and literals "
+    "endings; every single deviation over the indent_/align_/pp_/cmt_/nl_ options read, on five tab bases (two with code and directives governed differently). Oracle: comments and literals "
     "masked by the independent lexer; no line ends in a blank; no tab in leading whitespace when the governing option is 0, no space before a "
     "tab when it is 1 or 2 (directive lines and their continuation lines governed by pp_indent_with_tabs); file end as configured.",
     "end-of-file clause demands only what the option text fixes (remove: none, force m>0: exactly m, add m>0: at least m, otherwise a final newline is neither invented nor lost)",
     "bounded-exhaustive layout x tab-option-product enumeration with lexer-masked whitespace oracle", "3/C17")
 chk("C18", "model_checking",
-    "Stateless bounded-exhaustive exploration on the real binary: every statement shape of G_stmt (depth 1 quick / depth 2 thorough) in K&R "
+    "Stateless bounded-exhaustive exploration on the real binary: every statement shape of G_stmt (depth 1 quick / depth 2 thorough; plus compound "
+    "statements - nested switch, braced loops - inside case bodies followed by break) in K&R "
     "and Allman rendering as C, C++ and Java, every statement on its own line, x original indentation: 6 uniform indents, EVERY 1-deviation "
     "(each line x each of 6 indents; thorough: every 2-deviation on small shapes), a comment line with odd indentation before each statement "
     "in turn - 33 000 functions (quick), 30 per file - x indent_columns x indent_with_tabs x output_tab_size (quick {2,3,4,8} x {0,2} x {4,8}; "
@@ -192,7 +195,8 @@ chk("C19", "model_checking",
     "no other program makes uncrustify consult, statement packs, in original and wide-gap layout x "
     "{defaults, all sp_ add, all sp_ remove, all sp_ force} x every sp_ option the run reads at each of its four values (exhaustive over "
     "options x values by read-set pruning); thorough adds sp x sp pairs. Oracle per pair decided by space_text() whose logged rule is a "
-    "registered iarf option: the value returned is that option's configured value (ADD may be set only where the statement exempts it), and "
+    "registered iarf option: the value returned is that option's configured value (ADD may be set only where the statement exempts it - decided "
+    "by the independent lexer: would the pair lex differently without a blank? - never by uncrustify's own force-space flag), and "
     "the gap in the output obeys it (remove: none, force: exactly one blank, add: at least one, ignore: presence as in the input).",
     "hook reports the last rule string logged before do_space() returned; tokens paired by the independent lexer; cases with changed token streams are left to C02",
     "bounded-exhaustive program x spacing-option enumeration with hook-attributed per-pair oracle", "3/C19")
